@@ -141,6 +141,10 @@ pub struct ArrStorage {
     pub fail_at: u32,
     /// set if any write started beyond the current end or straddled the end
     pub bad_write: bool,
+    /// the next `fail_flushes` calls of `flush` fail (0: never)
+    pub fail_flushes: u32,
+    /// number of `flush` calls that failed
+    pub failed_flushes: u32,
 }
 
 impl ArrStorage {
@@ -152,6 +156,8 @@ impl ArrStorage {
             calls: 0,
             fail_at: u32::MAX,
             bad_write: false,
+            fail_flushes: 0,
+            failed_flushes: 0,
         }
     }
 
@@ -176,10 +182,17 @@ impl StorageData for ArrStorage {
             calls: 0,
             fail_at: u32::MAX,
             bad_write: false,
+            fail_flushes: 0,
+            failed_flushes: 0,
         })
     }
 
     fn flush(&mut self) -> Result<(), DbError> {
+        if self.fail_flushes > 0 {
+            self.fail_flushes -= 1;
+            self.failed_flushes += 1;
+            return Err(const_err(DbErrorType::NotAllowed));
+        }
         self.flushes += 1;
         Ok(())
     }
